@@ -17,7 +17,7 @@ Protocol lines of area `tsprops` (self-contained: programs + interleaving on one
     env     := - | <hexkey>:<val>&<hexkey>:<val>...          val := n | s<hex>
     route   := H <op>* <outcome> | NF <line> <text> | NA <line> <text> <allow> | BP <line>
     op      := path | method | query <k> | cookie <k> | header <name> <wsgikey> | envget <k> | body
-             | form <k> | url | status <code> <line> | rdstatus | sethdr <k> <v> | addhdr <k> <v>
+             | form <k> | file <name> <field> | url | status <code> <line> | rdstatus | sethdr <k> <v> | addhdr <k> <v>
              | rdhdr <k> | setcookie <k> <rendered> | ctype <v> | copy | cpath <n> | cset <n> <k> <v>
              | cheader <n> <name> <wsgikey>
              | nested <req> | construct <app>
@@ -102,6 +102,7 @@ mutual
     | "envget" :: k :: r => some (.envGet (str k), r)
     | "body" :: r => some (.body, r)
     | "form" :: k :: r => some (.form (str k), r)
+    | "file" :: n :: f :: r => some (.file (str n) (str f), r)
     | "url" :: r => some (.url, r)
     | "status" :: c :: l :: r => do pure (.status (← c.toInt?) (str l), r)
     | "rdstatus" :: r => some (.rdStatus, r)
